@@ -15,6 +15,7 @@ import sfc_models.external
 import sfc_models.equation
 
 TIER = 'quick'
+XCHECK = [3]
 
 
 def full_model(model, S):
@@ -78,6 +79,12 @@ def work(plan):
                 net = fx.GetVariableName('NET_' + cz.Currency)
                 tot = tot + S.var(net, 'b')
         v, m = D.decide(cons + pos + [tot != 0])
+        if v in ('sat', 'unsat') and (len(rec['obs']) % XCHECK[0]) == 0:
+            from vf.eqsmt import cvc5_check
+            c5 = cvc5_check(cons + pos + [tot != 0], 10000)
+            rec['cvc5_crosschecked'] = rec.get('cvc5_crosschecked', 0) + 1
+            if c5 in ('sat', 'unsat') and c5 != v:
+                rec.setdefault('cvc5_disagreements', []).append('z3 %s vs cvc5 %s, zone %s' % (v, c5, cz.Currency))
         ob = {'kind': 'sfc-induction', 'zone': cz.Currency, 'sectors': [s.FullCode for s in secs], 'net': net, 'verdict': v}
         if v == 'sat':
             v2, m2 = D.decide(cons + pos + [z3.Or(tot > 1, tot < -1)], ladder=False)
@@ -158,6 +165,7 @@ def run(tier, seed):
                sfc_models.external.ForexTransations._SendMoney, sfc_models.external.ForexTransations._ReceiveMoney,
                sfc_models.external.InternationalGold.SetGoldPurchases, sfc_models.equation.Equation.AddTerm,
                sfc_models.equation.Term.__init__)
+    XCHECK[0] = 8 if tier == 'quick' else 2
     plans = Z.zoo(tier)
     chk.bounds = {'topologies': len(plans), 'periods': 'one-period induction (all k>=2) + base case k=1 when no initial condition is imposed',
                   'numeric domain': 'all reals: exogenous values of both periods, lagged state of the earlier period, declared literal parameters'}
@@ -195,6 +203,9 @@ def run(tier, seed):
             chk.count('rung:' + k, v)
         chk.solver_s += rec.get('solver_s', 0.0)
         chk.queries += rec.get('queries', 0)
+        chk.count('cvc5_crosschecked', rec.get('cvc5_crosschecked', 0))
+        for d_ in rec.get('cvc5_disagreements', []):
+            chk.harness_errors.append('solver disagreement in %s: %s' % (rec['plan'], d_))
     validate_translator(chk, tv[:400])
     chk.exhaustive = True
     chk.extra['explanation'] = 'every topology of the zoo x every currency zone: entailment system |= sum dF + NET = 0 decided by z3 over the reals'
